@@ -2,9 +2,63 @@
    steps it emitted are replayed through the model (agreement), and the property predicates are evaluated
    on the observed documents against the flat-token picture. *)
 From Coq Require Import ZArith NArith List Bool Arith.
-From PM Require Export Model.Data Model.Mark Model.Tree Spec.Tokens Model.Step Corr.Common Corr.Tree Corr.Steps.
+From PM Require Export Model.Data Model.Mark Model.Tree Model.Resolve Spec.Tokens Model.Step Model.StructOps Corr.Common Corr.Tree Corr.Steps.
 Import ListNotations.
 Local Open Scope nat_scope.
+
+(* queries to the modelled structure helpers and step builders (Model.StructOps) *)
+Inductive squery :=
+| QCanSplit (pos depth : nat)
+| QCanJoin (pos : nat)
+| QJoinPoint (pos : nat) (dir_pos : bool)
+| QInsertPoint (pos ty : nat)
+| QLiftTarget (from to depth : nat)
+| QSplit (pos depth : nat)
+| QJoin (pos depth : nat)
+| QLift (from to depth target : nat)
+| QWrap (from to depth : nat) (ws : list (nat * attrs)).
+
+Inductive sanswer :=
+| ABool (b : bool)
+| AOptBool (o : option bool)
+| AOptNat (o : option nat)
+| AStep (st : step)
+| AErr (e : err).
+
+Definition sanswer_eqb (a b : sanswer) : bool :=
+  match a, b with
+  | ABool x, ABool y => Bool.eqb x y
+  | AOptBool x, AOptBool y => opt_eqb Bool.eqb x y
+  | AOptNat x, AOptNat y => opt_eqb Nat.eqb x y
+  | AStep x, AStep y => step_eqb x y
+  | AErr x, AErr y => err_eqb x y
+  | _, _ => false
+  end.
+
+Definition of_res {A} (f : A -> sanswer) (r : res A) : sanswer := match r with Ok a => f a | Err e => AErr e end.
+
+(* an operation = its step, handed to Transform.step, which raises TransformError when the step fails *)
+Definition run_built (s : schema) (doc : node) (r : res step) : sanswer :=
+  match r with
+  | Err e => AErr e
+  | Ok st => match apply s st doc with ROk _ => AStep st | RFail => AErr ErrTransform | RErr e => AErr e end
+  end.
+
+Definition mk_range (s : schema) (doc : node) (from to depth : nat) : res noderange :=
+  do rf <- resolve s doc from; do rt <- resolve s doc to; Ok {| nr_from := rf; nr_to := rt; nr_depth := depth |}.
+
+Definition model_answer (s : schema) (doc : node) (q : squery) : sanswer :=
+  match q with
+  | QCanSplit pos depth => of_res ABool (can_split s doc pos depth)
+  | QCanJoin pos => of_res AOptBool (can_join s doc pos)
+  | QJoinPoint pos d => of_res AOptNat (join_point s doc pos d)
+  | QInsertPoint pos ty => of_res AOptNat (insert_point s doc pos ty)
+  | QLiftTarget from to depth => of_res AOptNat (do r <- mk_range s doc from to depth; lift_target s r)
+  | QSplit pos depth => run_built s doc (split_step s doc pos depth)
+  | QJoin pos depth => run_built s doc (join_step pos depth)
+  | QLift from to depth target => run_built s doc (do r <- mk_range s doc from to depth; lift_step s r target)
+  | QWrap from to depth ws => run_built s doc (do r <- mk_range s doc from to depth; wrap_step s r ws)
+  end.
 
 Inductive opcase :=
 (* replace-family operation on [from,to) inserting [inserted] (the slice's / node's inner tokens come from it);
@@ -15,7 +69,9 @@ Inductive opcase :=
 | CHelper (s : schema) (doc : node) (helper_crashed approved result_in_range : bool)
           (performed_ok structure_only : bool) (hist : list applied) (final : node)
 (* an edit whose range lies inside an isolating node spanning tokens [open_idx, close_idx] *)
-| CIso (s : schema) (doc : node) (open_idx close_idx : nat) (crashed : bool) (hist : list applied) (final : node).
+| CIso (s : schema) (doc : node) (open_idx close_idx : nat) (crashed : bool) (hist : list applied) (final : node)
+(* a query to a modelled structure helper / step builder and the implementation's answer *)
+| CStruct (s : schema) (doc : node) (q : squery) (answer : sanswer).
 
 Definition case := opcase.
 
@@ -23,6 +79,7 @@ Definition agree (c : case) : bool :=
   match c with
   | CReplaceOp s doc _ _ _ _ _ h final | CHelper s doc _ _ _ _ _ h final | CIso s doc _ _ _ h final =>
     agree_hist s doc h final
+  | CStruct s doc q ans => sanswer_eqb (model_answer s doc q) ans
   end.
 
 Definition dtoks (s : schema) (d : node) := ftoks s (node_content d).
